@@ -203,6 +203,52 @@ func genC16(d *RunDesc, tier string) {
 		d.Tasks = append(d.Tasks, ops)
 	}
 
+	// Sibling burst (one run in three that has a shared world): two reports of the
+	// same shared object that differ in nothing but the language, and every task
+	// exports one of them with the same template at a position of its own.  Callers
+	// that ask for almost the same thing at the same moment are what request
+	// collapsing (single-flight), per-key locks and memo tables keyed too coarsely
+	// get wrong.  Own PRNG stream: the rest of the workload is what it was.
+	sb := newRng(simrt.Mix(d.Seed, 5))
+	if pattern != 0 && sb.chance(1, 3) {
+		var v3 []int
+		for i, o := range d.World {
+			if !kindIsV2(o.Kind) {
+				v3 = append(v3, i)
+			}
+		}
+		if len(v3) > 0 {
+			o := v3[sb.intn(len(v3))]
+			la, lb := 2, 1 // ja, en: the two languages with tables of their own
+			if sb.chance(1, 4) {
+				la, lb = sb.intn(len(langs)), sb.intn(len(langs))
+			}
+			first := len(d.WorldReps)
+			d.WorldReps = append(d.WorldReps, RepSpec{Obj: o, Lang: la}, RepSpec{Obj: o, Lang: lb})
+			tmpl := ""
+			for i := range tmplPool {
+				if tmplLevels[i] <= d.World[o].Kind && len(tmplPool[i]) < 2048 {
+					tmpl = tmplPool[i]
+					break
+				}
+			}
+			if tmpl == "" {
+				class := ""
+				for tries := 0; class != "valid" && tries < 5; tries++ {
+					tmpl, class, _ = genTemplate(sb, sb.intn(d.World[o].Kind+1))
+				}
+			}
+			for t := range d.Tasks {
+				op := Op{K: "exp", Rep: &Ref{Shared: true, I: first + (t+sb.intn(2))%2}, Tmpl: tmpl, Via: "str"}
+				at := sb.intn(len(d.Tasks[t]) + 1)
+				ops := append([]Op{}, d.Tasks[t][:at]...)
+				ops = append(ops, op)
+				d.Tasks[t] = append(ops, d.Tasks[t][at:]...)
+			}
+			d.Burst = true
+		}
+	}
+
 	// schedule
 	prio := make([]int, nTasks)
 	for i := range prio {
@@ -314,6 +360,9 @@ func runC16(d *RunDesc, res *RunResult) {
 	nT := len(d.Tasks)
 	res.Stats.Tasks = nT
 	res.Stats.Policy = d.Sched.Policy
+	if d.Burst {
+		res.Stats.count("sibling-bursts")
+	}
 
 	mk := func(w *world, results [][]string, ctxs []*taskCtx) []func() {
 		tasks := make([]func(), nT)
@@ -383,6 +432,12 @@ func runC16(d *RunDesc, res *RunResult) {
 	res.Stats.Yields = cr.Yields
 	res.Stats.Switches = cr.NSwitches
 	res.Stats.Preemptions = cr.Preemptions
+	if cr.BlockedSw > 0 {
+		if res.Stats.Counters == nil {
+			res.Stats.Counters = map[string]int{}
+		}
+		res.Stats.Counters["blocked-switches"] += int(cr.BlockedSw)
+	}
 	res.Stats.MapRanges = cr.MapRanges
 	res.Switches = cr.Switches
 	for _, c := range conCtx {
